@@ -14,38 +14,66 @@ open Biscuit
 /-- **C02.** If the attenuated token is accepted, so is its parent. -/
 theorem attenuation_monotone (cfg : EvalCfg) (tok : Token) (B : Block) (s : AuthState) :
     (authorize cfg (tok.append B) s).2 = .ok → (authorize cfg tok s).2 = .ok := by
-  sorry
+  exact authorize_suffix_ok cfg tok.authority tok.blocks [B] s
 
 /-- The same for any number of appended blocks. -/
 theorem attenuation_monotone_suffix (cfg : EvalCfg) (tok : Token) (Bs : List Block) (s : AuthState) :
     (authorize cfg { tok with blocks := tok.blocks ++ Bs } s).2 = .ok →
     (authorize cfg tok s).2 = .ok := by
-  sorry
+  exact authorize_suffix_ok cfg tok.authority tok.blocks Bs s
 
 /-- Contrapositive, as the property words it: no appended block turns a refusal
 of the parent into an acceptance. -/
 theorem refusal_is_stable (cfg : EvalCfg) (tok : Token) (B : Block) (s : AuthState)
     (h : (authorize cfg tok s).2 ≠ .ok) : (authorize cfg (tok.append B) s).2 ≠ .ok := by
-  sorry
+  exact fun h' => h (attenuation_monotone cfg tok B s h')
 
 /-- Everything computed before the block loop (authority-level world, failed
 authorizer and authority checks, policy result) is a function of the authority
 block and the authorizer only. -/
 theorem authorityPhase_indep_blocks (cfg : EvalCfg) (A : Block) (bs bs' : List Block) (s : AuthState) :
     authorityPhase cfg (Token.mk A bs).authority s = authorityPhase cfg (Token.mk A bs').authority s := by
-  sorry
+  rfl
 
 /-- Failures of the parent are still failures of the attenuated token, in the same order. -/
 theorem failed_checks_prefix (cfg : EvalCfg) (tok : Token) (B : Block) (s : AuthState)
     (ids ids' : List CheckId)
     (h : (authorize cfg tok s).2 = .checksFailed ids)
     (h' : (authorize cfg (tok.append B) s).2 = .checksFailed ids') : ids <+: ids' := by
-  sorry
+  cases hap : authorityPhase cfg tok.authority s with
+  | mk w r =>
+    have hap' : authorityPhase cfg (tok.append B).authority s = (w, r) := hap
+    cases r with
+    | error e =>
+      rw [authorize, authorizeWith_snd_err cfg false _ s w e hap] at h
+      cases h
+    | ok ap =>
+      rw [authorize, authorizeWith_snd_ok cfg false _ s w ap hap] at h
+      rw [authorize, authorizeWith_snd_ok cfg false _ s w ap hap'] at h'
+      have hb := finish_eq_checksFailed _ _ _ h
+      have hb' := finish_eq_checksFailed _ _ _ h'
+      simp only [Token.append] at hb'
+      rw [blockPhase_append, hb] at hb'
+      exact blockPhase_prefix cfg _ _ _ _ _ _ hb'
 
 /-- A run-limit or evaluation error of the parent is the verdict of the attenuated token too. -/
 theorem run_error_is_stable (cfg : EvalCfg) (tok : Token) (B : Block) (s : AuthState) (e : RunErr)
     (h : (authorize cfg tok s).2 = .runError e) : (authorize cfg (tok.append B) s).2 = .runError e := by
-  sorry
+  cases hap : authorityPhase cfg tok.authority s with
+  | mk w r =>
+    have hap' : authorityPhase cfg (tok.append B).authority s = (w, r) := hap
+    cases r with
+    | error e' =>
+      rw [authorize, authorizeWith_snd_err cfg false _ s w e' hap] at h
+      rw [authorize, authorizeWith_snd_err cfg false _ s w e' hap']
+      exact h
+    | ok ap =>
+      rw [authorize, authorizeWith_snd_ok cfg false _ s w ap hap] at h
+      rw [authorize, authorizeWith_snd_ok cfg false _ s w ap hap']
+      have hb := finish_eq_runError _ _ _ h
+      simp only [Token.append]
+      rw [blockPhase_append, hb]
+      rfl
 
 /-! Non-vacuity: a token whose attenuated form is accepted (so the hypothesis of
 `attenuation_monotone` is satisfiable), and one where the block makes it fail. -/
